@@ -61,6 +61,8 @@ RESHARE4 = dict(name="reshare4", n=4, epoch=2, remain=[1, 2, 3, 4], leader=3, th
 ADD = dict(name="add", n=4, epoch=2, join=[4], remain=[1, 2, 3], leader=2, thr=3, prevThr=2)
 REMOVE = dict(name="remove", n=4, epoch=2, remain=[1, 2, 3], leave=[4], leader=1, thr=2, prevThr=3)
 SWAP = dict(name="swap", n=4, epoch=2, join=[4], remain=[1, 2], leave=[3], leader=1, thr=2, prevThr=2)
+FIRST5 = dict(name="first5", n=5, epoch=1, join=[1, 2, 3, 4, 5], leader=3, thr=3)
+ADD5 = dict(name="add5", n=5, epoch=2, join=[5], remain=[1, 2, 3, 4], leader=4, thr=4, prevThr=3)
 LATE3 = dict(name="late3", n=3, epoch=1, join=[1, 2, 3], leader=1, thr=2, late=[3])
 LATE4 = dict(name="late4", n=4, epoch=1, join=[1, 2, 3, 4], leader=1, thr=3, late=[2])
 
@@ -265,10 +267,10 @@ def run(ctx, monitors):
         shapes = [(FIRST3, 2, 170), (RESHARE3, 2, 200), (ADD, 1, 260), (REMOVE, 1, 220), (LATE3, 1, 170),
                   (_with(RESHARE3, name="reshare3atomic", ag=True, ae=True), 2, 40)]
     else:
-        shapes = [(FIRST3, 6, 170), (FIRST4, 4, 300), (RESHARE3, 6, 200), (RESHARE4, 3, 330), (ADD, 4, 260),
-                  (REMOVE, 3, 220), (SWAP, 3, 220), (LATE3, 3, 170), (LATE4, 2, 300),
-                  (_with(RESHARE3, name="reshare3atomic", ag=True, ae=True), 6, 40),
-                  (_with(ADD, name="addatomic", ag=True, ae=True), 4, 40)]
+        shapes = [(FIRST3, 8, 170), (FIRST4, 6, 300), (FIRST5, 3, 460), (RESHARE3, 8, 200), (RESHARE4, 4, 330), (ADD, 6, 260),
+                  (ADD5, 2, 480), (REMOVE, 4, 220), (SWAP, 4, 220), (LATE3, 4, 170), (LATE4, 3, 300),
+                  (_with(RESHARE3, name="reshare3atomic", ag=True, ae=True), 8, 40),
+                  (_with(ADD, name="addatomic", ag=True, ae=True), 6, 40)]
     # 1. design level (exhaustive) and 2. behaviour generation run side by side, while the test
     #    binary is built from the current tree
     jobs, dthunks = _design_jobs(ctx)
